@@ -682,6 +682,8 @@ pub fn ls_ipv4(cx: &mut Cx, s: &Ipv4Slice, out: &mut Vec<NLayer>) {
     if s.payload_ip_number() != s.payload().ip_number || s.is_payload_fragmented() != s.payload().fragmented {
         l.p("accessor_mismatch", 1u8);
     }
+    let ip: IpSlice = s.clone().into();
+    l.p("~hdr_pay_num", ip.header().payload_ip_number().0);
     out.push(l);
     if let Some(a) = s.extensions().auth {
         out.push(l_ah(cx, &a));
@@ -715,6 +717,9 @@ pub fn ls_ipv6(cx: &mut Cx, s: &Ipv6Slice, out: &mut Vec<NLayer>) -> bool {
     if s.is_payload_fragmented() != s.payload().fragmented {
         l.p("accessor_mismatch", 1u8);
     }
+    // the same number through the header view of the slice (IpSlice::header())
+    let ip: IpSlice = s.clone().into();
+    l.p("~hdr_pay_num", ip.header().payload_ip_number().0);
     out.push(l);
     ipv6_ext_layers(cx, s.extensions(), out)
 }
